@@ -47,11 +47,15 @@ def crafted_files(run, tier):
     if tier == 'thorough':
         combos += [((12, 8, 256), (9, 7, 130), 16, (4, 4, 128)), ((8, 16, 64), (6, 9, 40), 32, (4, 8, 32)),
                    ((32, 16, 8), (17, 9, 5), 32, (16, 16, 4)), ((4, 4, 64), (2, 2, 2), 32, (4, 4, 64))]
+    # the last file has large line numbers (a relative tolerance of 1e-5 would reach the neighbouring line)
+    combos += [((8, 8, 64), (6, 7, 40), 32, (4, 4, 64))]
     for k, (wshape, real, rate, bs) in enumerate(combos):
         p = os.path.join(d, f'p{k}.sgz')
         cube = inputs.cube(wshape, run.seed + 10 + k, 'noise')
+        big = k == len(combos) - 1
         try:
-            writers.numpy_to_sgz(p, cube, rate, bs, ilines=np.arange(wshape[0]) * 2 + 10, xlines=np.arange(wshape[1]) + 5,
+            writers.numpy_to_sgz(p, cube, rate, bs, ilines=(np.arange(wshape[0]) + 100010) if big else np.arange(wshape[0]) * 2 + 10,
+                                 xlines=(np.arange(wshape[1]) * 2 + 150000) if big else np.arange(wshape[1]) + 5,
                                  samples=np.arange(wshape[2]) * 4.0)
         except BaseException as e:
             run.notes.append(f'writer refused {wshape} {rate} {bs}: {type(e).__name__}: {e}')
